@@ -31,7 +31,7 @@ def load_code(artdir, name, backend):
     return out
 
 
-def make_inputs(artdir, workdir, backend, cases, maxsteps=200000, nblocks=256, footprint_k=2):
+def make_inputs(artdir, workdir, backend, cases, maxsteps=200000, nblocks=256, footprint_k=2, skip_counts=False):
     """cases: list of (program name, [int args]).  Returns env for TLC and the number of cases."""
     progs, pidx, tcases = [], {}, []
     for name, args in cases:
@@ -44,7 +44,7 @@ def make_inputs(artdir, workdir, backend, cases, maxsteps=200000, nblocks=256, f
         tcases.append({"p": pidx[name], "name": "%s@%s" % (name, ",".join(map(str, args))),
                        "args": [_limbs(a) for a in args]})
     cfg = json.load(open(os.path.join(artdir, backend + ".config.json")))
-    cfg.update({"maxsteps": maxsteps, "nblocks": nblocks, "footprint_k": footprint_k})
+    cfg.update({"maxsteps": maxsteps, "nblocks": nblocks, "footprint_k": footprint_k, "skip_counts": skip_counts})
     os.makedirs(workdir, exist_ok=True)
     paths = {}
     for nm, obj in (("progs", progs), ("cases", tcases), ("cfg", cfg)):
